@@ -86,6 +86,10 @@ func drawDoc(w *world, delims [3]string, maxRepeat int, capped ...bool) (string,
 	return instantiate(text, delims), d
 }
 
+// fileNames are the filenames handed to the entry points (never empty here: the empty name has
+// clauses of its own).
+var fileNames = []string{"file.txt", "file.txt", "dir/with space.txt", "ünï-✓.src", "a:b:1:2.txt", "-"}
+
 func tokenEnds(toks []lexer.Token) []int {
 	var ends []int
 	for _, t := range toks {
@@ -226,7 +230,7 @@ func entryParser(rc *RunCtx) *Violation {
 	if subBatch != "faultfree" && !w.verbatim {
 		d, fired = deriveInput(rc, x, nil, allContentFaults)
 	}
-	name := "file.txt"
+	name := fileNames[simrt.Choose(len(fileNames))]
 	viol := func(clause, detail string) *Violation {
 		return &Violation{Signature: "entry/" + w.name + "/" + clause,
 			Detail: fmt.Sprintf("%s; world=%s variant=[%s] doc=%s input=%s", detail, w.name, variant, dc.name, quoteClip(d, 200)), Input: d}
